@@ -87,6 +87,9 @@ EXPECT = [
     ("checkpoint_lengths raised", ["C07", "C06"]), ("recordings of synaptic states", ["C08", "C07"]), ("initial states of synapses", ["C10"]),
     ("set_ncomp left groups", ["C13"]), ("clamps of synaptic states", ["C08"]), ("jax.sparse ignored", ["C09", "C08", "C19"]),
     ("channel flag columns kept dtype object", ["C19", "C13"]),
+    ("return_states returned a later state", ["C07"]), ("loc('all') used the locations", ["C11"]),
+    ("views listed (and deleted) recordings of synaptic", ["C19", "C08"]), ("views ignored trainables", ["C19"]),
+    ("parameters shared across the view boundary", ["C19"]),
 ]
 
 
